@@ -82,6 +82,11 @@ class Mod(object):
             self.add('{}...'.format(ind))
             fl = self.add('{}wrong {}'.format(ind, k))
             exc = 'GotWantException'
+        elif fail == 'rt_syntax':
+            # a SyntaxError raised at run time: its own lineno (1, in the foreign text) is not the failing doctest line
+            fl = self.add("{}>>> compile('x = = {}', 'other_file.py', 'exec')".format(ind, k))
+            prompts.append(fl)
+            exc = 'SyntaxError'
         elif fail == 'modfunc':
             fl = self.add('{}>>> vp_module_boom({})'.format(ind, k))
             prompts.append(fl)
